@@ -5,6 +5,7 @@ import Driver.SqlDb
 import Driver.Budget
 import Driver.PageLocks
 import Driver.GroupCommit
+import Driver.CommitOrder
 import Driver.KeyEnc
 import Driver.Simd
 import Driver.SqlJoin
@@ -25,6 +26,7 @@ def main (args : List String) : IO UInt32 := do
   -- buffered output: collect through a BufferedWriter-like approach (IO.FS.Stream is line buffered by the runtime)
   match args with
   | ["varint"] => Driver.loop stdin stdout () Driver.Varint.step; return 0
+  | ["commitorder"] => Driver.loop stdin stdout () Driver.CommitOrder.step; return 0
   | ["groupcommit"] => Driver.loop stdin stdout (TurVerif.GroupCommit.init []) Driver.GroupCommit.step; return 0
   | ["pagelocks"] => Driver.loop stdin stdout (TurVerif.PageLocks.init false []) Driver.PageLocks.step; return 0
   | ["budget"] => Driver.loop stdin stdout (TurVerif.Budget.init 0 []) Driver.Budget.step; return 0
